@@ -115,6 +115,30 @@ Definition include_name (fi : nat) (root_params : mapping) (cls : string) : res 
     end
   else Ok cls.
 
+(** The loop of render_impl over the include entries of [self], parametrised by the recursive
+    call.  [loading] is the chain of classes currently being loaded (include-loop detection). *)
+Definition walker := node -> list string -> list string -> node -> res (node * list string * node).
+
+Fixpoint include_loop (fi : nat) (cfg : ncfg) (tbl : list cls_entry) (recur : walker)
+         (self_loc loading : list string) (cs : list string) (seen : list string) (root : node)
+  : res (list string * node) :=
+  match cs with
+  | [] => Ok (seen, root)
+  | c :: cs' =>
+      name0 <- include_name fi (n_params root) c ;;
+      let name := abs_class_name self_loc name0 in
+      if mem name seen then include_loop fi cfg tbl recur self_loc loading cs' seen root
+      else if mem name loading then Err (EIncludeLoop loading name)
+      else
+        r <- read_class cfg tbl self_loc name ;;
+        match r with
+        | None => include_loop fi cfg tbl recur self_loc loading cs' seen root
+        | Some cn =>
+            '(_, seen1, root1) <- recur cn seen (loading ++ [name]) root ;;
+            include_loop fi cfg tbl recur self_loc loading cs' (seen1 ++ [name]) root1
+        end
+  end.
+
 (** * render_impl: [f] bounds the include depth, [fi] is the interpreter fuel. *)
 Fixpoint render_impl (f fi : nat) (cfg : ncfg) (tbl : list cls_entry)
          (self : node) (seen loading : list string) (root : node) {struct f}
@@ -122,25 +146,8 @@ Fixpoint render_impl (f fi : nat) (cfg : ncfg) (tbl : list cls_entry)
   match f with
   | 0 => OutOfFuel
   | S f' =>
-      '(seen', root') <-
-        (fix go (cs : list string) (seen : list string) (root : node) {struct cs}
-           : res (list string * node) :=
-           match cs with
-           | [] => Ok (seen, root)
-           | c :: cs' =>
-               name0 <- include_name fi (n_params root) c ;;
-               let name := abs_class_name (n_loc self) name0 in
-               if mem name seen then go cs' seen root
-               else if mem name loading then Err (EIncludeLoop loading name)
-               else
-                 r <- read_class cfg tbl (n_loc self) name ;;
-                 match r with
-                 | None => go cs' seen root
-                 | Some cn =>
-                     '(_, seen1, root1) <- render_impl f' fi cfg tbl cn seen (loading ++ [name]) root ;;
-                     go cs' (seen1 ++ [name]) root1
-                 end
-           end) (n_classes self) seen root ;;
+      '(seen', root') <- include_loop fi cfg tbl (render_impl f' fi cfg tbl) (n_loc self) loading
+                                      (n_classes self) seen root ;;
       '(self', root'') <- merge_into self root' ;;
       Ok (self', seen', root'')
   end.
